@@ -54,3 +54,25 @@ _cmpu = (dict(name='mpf_cmp', props=['C11', 'C13', 'C04', 'C15'], source='mpf/cm
 
 UNITS.extend(split_alias(_cmpu, '  mpf_srcptr u = &U, v = &V; if (nondet_bool ()) v = u;\n',
                          [('', '  mpf_srcptr u = &U, v = &V;\n'), ('uv', '  mpf_srcptr u = &U, v = u;\n')]))
+
+CT2 = ['mpn.h', 'mpz.h', 'c11.h', 'mpf.h']
+def f1(fn, src, decl='', args='', muts=(), extra=None):
+    u = dict(name=fn.replace('__gmpf_', 'mpf_'), props=['C13', 'C11', 'C04', 'C15'], source='mpf/%s.c' % src, contracts=CT2, enforce=[fn],
+             harness='void h_%s (void) {\n%s  %s\n  gj = nondet_long ();\n  %s (&F%s);\n}' % (fn.replace('__gmpf_', 'mpf_'), mpf_obj('F'), decl, fn, args),
+             selftest=[(fn,) + m for m in muts])
+    if extra:
+        u.update(extra)
+    return u
+UNITS.append(f1('__gmpf_set_ui', 'set_ui', 'mpir_ui v;', ', v', [(r'size = val != 0', 'size = 1')]))
+UNITS.append(f1('__gmpf_set_si', 'set_si', 'mpir_si v;', ', v', [(r'dest->_mp_exp = size;', 'dest->_mp_exp = 1;')],
+                dict(drop_checks=['--signed-overflow-check'], cbmc_flags=['--no-signed-overflow-check'], assumptions=['mpf_set_si: -LONG_MIN wraps (gcc semantics)'])))
+for t in ('ulong', 'uint', 'ushort', 'slong', 'sint', 'sshort'):
+    UNITS.append(f1('__gmpf_fits_%s_p' % t, 'fits_%s' % t, muts=[(r'if \(exp < 1\)', 'if (exp < 2)')]))
+UNITS.append(f1('__gmpf_get_si', 'get_si', muts=[(r'if \(exp <= 0\)', 'if (exp < 0)')]))
+UNITS.append(f1('__gmpf_cmp_ui', 'cmp_ui', 'mpir_ui v;', ', v', [(r'if \(uexp > 1\)', 'if (uexp > 2)'), (r'if \(usize > 0\)', 'if (usize >= 0)')],
+                dict(functions={'__gmpf_cmp_ui': dict(
+                    inserts=[(r'usize--;\s*if \(ulimb > vval\)', None)] if False else [(r'up = u->_mp_d;', r'\g<0> long V_n = usize;')],
+                    loops={0: dict(scalars=['usize'], havoc_targets=['up'],
+                                   havoc='{ long V_d = nondet_long (); __CPROVER_assume (0 <= V_d && V_d < V_n); up = u->_mp_d + V_d; usize = V_n - 1 - V_d; }',
+                                   inv='(up >= u->_mp_d && __CPROVER_same_object (up, u->_mp_d) && usize == V_n - 1 - (up - u->_mp_d) && 0 <= usize && usize <= V_n - 1 && u->_mp_d[V_n - 1] != 0 && V_n == u->_mp_size && (gj < (up - u->_mp_d) ==> u->_mp_d[gj] == 0))',
+                                   dec='usize + 1', after='g_hd = up - u->_mp_d;')})})))
